@@ -344,6 +344,27 @@ def linear_case(draw):
     }
 
 
+@st.composite
+def shifted_case(draw):
+    """two rasters of equal shape in projected coordinates (millions of metres), the target shifted by a fraction
+    of a cell: almost-equal geometries must still be regridded by distance"""
+    dim = draw(st.sampled_from([1, 2, 2, 3]))
+    dims = [draw(st.integers(3, 6)) for _ in range(dim)]
+    sp = draw(st.sampled_from([25.0, 10.0, 100.0, 0.5]))
+    origin = [draw(st.sampled_from([4400000.0, 5600000.0, 320000.0, 12.0])) for _ in range(dim)]
+    shift = [sp * draw(st.sampled_from([0.0, 0.3, 0.6, 0.9, -0.6])) for _ in range(dim)]
+
+    def cfg(o):
+        return {"cls": "uni", "dims": dims, "spacing": [sp] * dim, "origin": o, "inc": [draw(st.booleans()) for _ in range(dim)],
+                "order": draw(st.sampled_from("CF")), "rev": draw(st.booleans()), "loc": draw(st.sampled_from(["CELLS", "POINTS"]))}
+
+    a = cfg(origin)
+    b = cfg([o + s for o, s in zip(origin, shift)])
+    b["loc"] = a["loc"]
+    return {"src": {"kind": "struct", "cfg": a}, "tgt": {"kind": "struct", "cfg": b}, "smask": None,
+            "tmask": draw(st.one_of(st.none(), st.integers(1, 2**40))), "method": "nearest", "fill": False}
+
+
 def enum_identity(tier):
     """nearest regridding between every ordered pair of layouts of one geometry must be the identity"""
     from .c15 import base_cfgs, layouts
@@ -365,5 +386,6 @@ def parts():
         Part("identity_enum", check, enumerate=enum_identity, exhaustive=True),
         Part("nearest", check, strategy=nearest_case(), budget={"quick": 1200, "thorough": 40000}),
         Part("identity_gen", check, strategy=identity_case(), budget={"quick": 300, "thorough": 10000}),
+        Part("shifted_rasters", check, strategy=shifted_case(), budget={"quick": 300, "thorough": 10000}),
         Part("linear", check, strategy=linear_case(), budget={"quick": 700, "thorough": 24000}),
     ]
